@@ -87,6 +87,13 @@ static int rawfile(const char *p, long long len, long long seed) {
   return fclose(o);
 }
 
+static void ffclose(void) {  // close the plain file; an IWFS_OTMP file is the harness's to remove
+  if (ff_open) ff.close(&ff);
+  ff_open = 0;
+  if (tmppath[0] && strcmp(tmppath, rawpath)) unlink(tmppath);
+  tmppath[0] = 0;
+}
+
 static long long statsz2(const char *p) {
   struct stat st;
   if (stat(p, &st)) return -1;
@@ -217,7 +224,7 @@ int main(int argc, char **argv) {
         }
         printf("fhold %s fstat=%lld\n", rci ? "ERR" : "OK", statsz2(rawpath));
       } else if (!strcmp(op, "fopen") && n >= 3) {
-        if (ff_open) { ff.close(&ff); ff_open = 0; }
+        ffclose();
         IWFS_FILE_OPTS fo;
         memset(&fo, 0, sizeof(fo));
         fo.omode = (iwfs_omode) atoi(tv[1]);
@@ -419,7 +426,7 @@ int main(int argc, char **argv) {
     tail();
   }
   if (is_open && !poisoned) f.close(&f);
-  if (ff_open) ff.close(&ff);
+  ffclose();
   unlink(path);
   unlink(rawpath);
   return 0;
